@@ -214,11 +214,11 @@ func blockAcceptedReason(fn, what, lock string) (string, bool) {
 // exit constructs accepted (A.7)
 
 var exitAccepted = map[string]string{
-	"(*internal/chain/beacon.chainStore).runAggregator|Fatalw": "only on a local Store.Last failure other than cancellation / closed DB",
-	"(*internal/chain/beacon.Handler).Transition|Fatalw":       "transition time not on a round boundary: the value comes from the node's own finished DKG",
-	"(*internal/chain/beacon.Handler).TransitionNewGroup|Fatalw": "transition time not on a round boundary: the value comes from the node's own finished DKG",
+	"(*internal/chain/beacon.chainStore).runAggregator|Fatalw":     "only on a local Store.Last failure other than cancellation / closed DB",
+	"(*internal/chain/beacon.Handler).Transition|Fatalw":           "transition time not on a round boundary: the value comes from the node's own finished DKG",
+	"(*internal/chain/beacon.Handler).TransitionNewGroup|Fatalw":   "transition time not on a round boundary: the value comes from the node's own finished DKG",
 	"(*internal/chain/beacon.Handler).broadcastNextPartial|Fatalw": "only if the local share cannot sign",
-	"(internal/dkg.Status).String|panic":                          "value read from the local DKG database / already validated state",
+	"(internal/dkg.Status).String|panic":                           "value read from the local DKG database / already validated state",
 	"(*common/key.DistPublic).PubPoly|panic":                       "nil scheme: the argument is the node's own group scheme, never request data",
 	"internal/chain/memdb.NewStore|panic":                          "buffer size below 10: local configuration, checked when the beacon store is created",
 	"internal/fs.CreateSecureFolder|panic":                         "local file-system failure while creating the node's own database folder",
